@@ -26,7 +26,7 @@ type optionsFacts struct {
 	ReservedRegexFmt  string // fmt format of the regexp in SubstituteEmptyStringForPrefixes
 	ContextPrefixes   []string
 	PodExtraPrefixes  []string
-	PodSubstSources   []string // order of the maps appended in SubstitutePodSpec
+	PodSubstSources   []string   // order of the maps appended in SubstitutePodSpec
 	AdmissionMerges   [][]string // argument kinds of the MergeSubstitutions calls in mutation.go, in source order
 }
 
@@ -89,276 +89,303 @@ func extractOptionsFacts() optionsFacts {
 	var f optionsFacts
 
 	// --- bool formats
-	fmtConsts := typedStringConsts(typesFile, "BoolOptionFormat")
-	if cl, ok := varValue(typesFile, "boolOptionFormatStrings").(*ast.CompositeLit); ok {
-		for _, el := range cl.Elts {
-			kv, ok := el.(*ast.KeyValueExpr)
-			inner, ok2 := kv.Value.(*ast.CompositeLit)
-			if !ok || !ok2 {
-				failf("boolOptionFormatStrings: unrecognised element")
-				continue
-			}
-			key, ok := fmtConsts[exprName(kv.Key)]
-			if !ok {
-				failf("boolOptionFormatStrings: key %s is not a BoolOptionFormat constant", exprName(kv.Key))
-			}
-			row := [3]string{key, "", ""}
-			seen := 0
-			for _, e2 := range inner.Elts {
-				kv2, ok := e2.(*ast.KeyValueExpr)
-				if !ok {
-					failf("boolOptionFormatStrings[%s]: unrecognised element", key)
+	section("opt-boolformats", func() {
+		fmtConsts := typedStringConsts(typesFile, "BoolOptionFormat")
+		if cl, ok := varValue(typesFile, "boolOptionFormatStrings").(*ast.CompositeLit); ok {
+			for _, el := range cl.Elts {
+				kv, ok := el.(*ast.KeyValueExpr)
+				inner, ok2 := kv.Value.(*ast.CompositeLit)
+				if !ok || !ok2 {
+					failf("boolOptionFormatStrings: unrecognised element")
 					continue
 				}
-				v := strLit(kv2.Value, "boolOptionFormatStrings value")
-				switch exprName(kv2.Key) {
-				case "true":
-					row[1] = v
-					seen |= 1
-				case "false":
-					row[2] = v
-					seen |= 2
-				default:
-					failf("boolOptionFormatStrings[%s]: key %s", key, exprName(kv2.Key))
+				key, ok := fmtConsts[exprName(kv.Key)]
+				if !ok {
+					failf("boolOptionFormatStrings: key %s is not a BoolOptionFormat constant", exprName(kv.Key))
 				}
+				row := [3]string{key, "", ""}
+				seen := 0
+				for _, e2 := range inner.Elts {
+					kv2, ok := e2.(*ast.KeyValueExpr)
+					if !ok {
+						failf("boolOptionFormatStrings[%s]: unrecognised element", key)
+						continue
+					}
+					v := strLit(kv2.Value, "boolOptionFormatStrings value")
+					switch exprName(kv2.Key) {
+					case "true":
+						row[1] = v
+						seen |= 1
+					case "false":
+						row[2] = v
+						seen |= 2
+					default:
+						failf("boolOptionFormatStrings[%s]: key %s", key, exprName(kv2.Key))
+					}
+				}
+				if seen != 3 {
+					failf("boolOptionFormatStrings[%s]: needs both true and false", key)
+				}
+				f.BoolFormatStrings = append(f.BoolFormatStrings, row)
 			}
-			if seen != 3 {
-				failf("boolOptionFormatStrings[%s]: needs both true and false", key)
-			}
-			f.BoolFormatStrings = append(f.BoolFormatStrings, row)
+		} else {
+			failf("%s: boolOptionFormatStrings is not a composite literal", typesFile)
 		}
-	} else {
-		failf("%s: boolOptionFormatStrings is not a composite literal", typesFile)
-	}
-	if cl, ok := varValue(typesFile, "BoolOptionFormatsAll").(*ast.CompositeLit); ok {
-		for _, el := range cl.Elts {
-			v, ok := fmtConsts[exprName(el)]
-			if !ok {
-				failf("BoolOptionFormatsAll: %s is not a constant", exprName(el))
+		if cl, ok := varValue(typesFile, "BoolOptionFormatsAll").(*ast.CompositeLit); ok {
+			for _, el := range cl.Elts {
+				v, ok := fmtConsts[exprName(el)]
+				if !ok {
+					failf("BoolOptionFormatsAll: %s is not a constant", exprName(el))
+				}
+				f.BoolFormatsAll = append(f.BoolFormatsAll, v)
 			}
-			f.BoolFormatsAll = append(f.BoolFormatsAll, v)
+		} else {
+			failf("%s: BoolOptionFormatsAll is not a composite literal", typesFile)
 		}
-	} else {
-		failf("%s: BoolOptionFormatsAll is not a composite literal", typesFile)
-	}
-	// FormatValue: `if c.Format == <Custom>` as first statement
-	if fd := funcDecl(typesFile, "BoolOptionConfig", "FormatValue"); fd != nil {
-		ok := false
-		if len(fd.Body.List) == 2 {
-			if is, ok1 := fd.Body.List[0].(*ast.IfStmt); ok1 {
-				if be, ok2 := is.Cond.(*ast.BinaryExpr); ok2 && be.Op == token.EQL && selPath(be.X) == "c.Format" {
-					if v, ok3 := fmtConsts[exprName(be.Y)]; ok3 {
-						f.BoolFormatCustom = v
-						ok = true
+		// FormatValue: `if c.Format == <Custom>` as first statement
+		if fd := funcDecl(typesFile, "BoolOptionConfig", "FormatValue"); fd != nil {
+			ok := false
+			if len(fd.Body.List) == 2 {
+				if is, ok1 := fd.Body.List[0].(*ast.IfStmt); ok1 {
+					if be, ok2 := is.Cond.(*ast.BinaryExpr); ok2 && be.Op == token.EQL && selPath(be.X) == "c.Format" {
+						if v, ok3 := fmtConsts[exprName(be.Y)]; ok3 {
+							f.BoolFormatCustom = v
+							ok = true
+						}
 					}
 				}
 			}
-		}
-		if !ok {
-			failf("%s: BoolOptionConfig.FormatValue: shape `if c.Format == <const> {…}; return c.Format.Format(value)` not recognised", typesFile)
-		}
-	}
-	// GetDefaultingOptionBool: `newOption.Bool.Format = execution.<const>`
-	if fd := funcDecl(optMutFile, "", "GetDefaultingOptionBool"); fd != nil {
-		ast.Inspect(fd, func(n ast.Node) bool {
-			as, ok := n.(*ast.AssignStmt)
-			if !ok || len(as.Lhs) != 1 || len(as.Rhs) != 1 || selPath(as.Lhs[0]) != "newOption.Bool.Format" {
-				return true
-			}
-			if v, ok := fmtConsts[exprName(as.Rhs[0])]; ok {
-				f.BoolFormatDefault = v
-			}
-			return true
-		})
-		if f.BoolFormatDefault == "" {
-			failf("%s: GetDefaultingOptionBool: default format assignment not found", optMutFile)
-		}
-	}
-	// option types
-	typeConsts := typedStringConsts(typesFile, "OptionType")
-	if cl, ok := varValue(typesFile, "OptionTypesAll").(*ast.CompositeLit); ok {
-		for _, el := range cl.Elts {
-			v, ok := typeConsts[exprName(el)]
 			if !ok {
-				failf("OptionTypesAll: %s is not a constant", exprName(el))
+				failf("%s: BoolOptionConfig.FormatValue: shape `if c.Format == <const> {…}; return c.Format.Format(value)` not recognised", typesFile)
 			}
-			f.OptionTypesAll = append(f.OptionTypesAll, v)
 		}
-	}
-
-	// --- names
-	if c, ok := varValue(optionsFile, "nameRegexp").(*ast.CallExpr); ok && selPath(c.Fun) == "regexp.MustCompile" && len(c.Args) == 1 {
-		f.OptionNameRegexp = strLit(c.Args[0], "nameRegexp")
-	} else {
-		failf("%s: nameRegexp is not regexp.MustCompile(<literal>)", optionsFile)
-	}
-	if fs := sprintfFormats(funcDecl(optionsFile, "", "MakeOptionVariableName")); len(fs) == 1 {
-		f.OptionVarFormat = fs[0]
-	} else {
-		failf("%s: MakeOptionVariableName: expected one Sprintf", optionsFile)
-	}
-
-	// --- SubstituteVariables
-	if fd := funcDecl(substFile, "", "SubstituteVariables"); fd != nil {
-		fs := sprintfFormats(fd)
-		if len(fs) == 1 {
-			f.SubstPatternFmt = fs[0]
-		} else {
-			failf("%s: SubstituteVariables: expected one Sprintf", substFile)
-		}
-		// shape A (as is): for name, value := range submap { … } ; return target
-		// shape B (fixed): keys collected, sort.Strings(keys), for _, name := range keys { … }
-		var ranges []*ast.RangeStmt
-		sorts := 0
-		ast.Inspect(fd, func(n ast.Node) bool {
-			switch x := n.(type) {
-			case *ast.RangeStmt:
-				ranges = append(ranges, x)
-			case *ast.CallExpr:
-				if selPath(x.Fun) == "sort.Strings" {
-					sorts++
+		// GetDefaultingOptionBool: `newOption.Bool.Format = execution.<const>`
+		if fd := funcDecl(optMutFile, "", "GetDefaultingOptionBool"); fd != nil {
+			ast.Inspect(fd, func(n ast.Node) bool {
+				as, ok := n.(*ast.AssignStmt)
+				if !ok || len(as.Lhs) != 1 || len(as.Rhs) != 1 || selPath(as.Lhs[0]) != "newOption.Bool.Format" {
+					return true
 				}
-			}
-			return true
-		})
-		param := ""
-		if len(fd.Type.Params.List) == 2 && len(fd.Type.Params.List[1].Names) == 1 {
-			param = fd.Type.Params.List[1].Names[0].Name
-		}
-		replaceInMapRange := false
-		replaceInOtherRange := false
-		for _, r := range ranges {
-			hasReplace := false
-			ast.Inspect(r.Body, func(n ast.Node) bool {
-				if c, ok := n.(*ast.CallExpr); ok && selPath(c.Fun) == "strings.ReplaceAll" {
-					hasReplace = true
+				if v, ok := fmtConsts[exprName(as.Rhs[0])]; ok {
+					f.BoolFormatDefault = v
 				}
 				return true
 			})
-			if !hasReplace {
-				continue
+			if f.BoolFormatDefault == "" {
+				failf("%s: GetDefaultingOptionBool: default format assignment not found", optMutFile)
 			}
-			if exprName(r.X) == param {
-				replaceInMapRange = true
+		}
+	})
+	// option types
+	section("opt-types", func() {
+		typeConsts := typedStringConsts(typesFile, "OptionType")
+		if cl, ok := varValue(typesFile, "OptionTypesAll").(*ast.CompositeLit); ok {
+			for _, el := range cl.Elts {
+				v, ok := typeConsts[exprName(el)]
+				if !ok {
+					failf("OptionTypesAll: %s is not a constant", exprName(el))
+				}
+				f.OptionTypesAll = append(f.OptionTypesAll, v)
+			}
+		} else {
+			failf("%s: OptionTypesAll is not a composite literal", typesFile)
+		}
+	})
+
+	// --- names
+	section("opt-names", func() {
+		if c, ok := varValue(optionsFile, "nameRegexp").(*ast.CallExpr); ok && selPath(c.Fun) == "regexp.MustCompile" && len(c.Args) == 1 {
+			f.OptionNameRegexp = strLit(c.Args[0], "nameRegexp")
+		} else {
+			failf("%s: nameRegexp is not regexp.MustCompile(<literal>)", optionsFile)
+		}
+		if fs := sprintfFormats(funcDecl(optionsFile, "", "MakeOptionVariableName")); len(fs) == 1 {
+			f.OptionVarFormat = fs[0]
+		} else {
+			failf("%s: MakeOptionVariableName: expected one Sprintf", optionsFile)
+		}
+
+	})
+
+	// --- SubstituteVariables
+	section("opt-subst", func() {
+		if fd := funcDecl(substFile, "", "SubstituteVariables"); fd != nil {
+			fs := sprintfFormats(fd)
+			if len(fs) == 1 {
+				f.SubstPatternFmt = fs[0]
 			} else {
-				replaceInOtherRange = true
+				failf("%s: SubstituteVariables: expected one Sprintf", substFile)
+			}
+			// shape A (as is): for name, value := range submap { … } ; return target
+			// shape B (fixed): keys collected, sort.Strings(keys), for _, name := range keys { … }
+			var ranges []*ast.RangeStmt
+			sorts := 0
+			ast.Inspect(fd, func(n ast.Node) bool {
+				switch x := n.(type) {
+				case *ast.RangeStmt:
+					ranges = append(ranges, x)
+				case *ast.CallExpr:
+					if selPath(x.Fun) == "sort.Strings" {
+						sorts++
+					}
+				}
+				return true
+			})
+			param := ""
+			if len(fd.Type.Params.List) == 2 && len(fd.Type.Params.List[1].Names) == 1 {
+				param = fd.Type.Params.List[1].Names[0].Name
+			}
+			replaceInMapRange := false
+			replaceInOtherRange := false
+			for _, r := range ranges {
+				hasReplace := false
+				ast.Inspect(r.Body, func(n ast.Node) bool {
+					if c, ok := n.(*ast.CallExpr); ok && selPath(c.Fun) == "strings.ReplaceAll" {
+						hasReplace = true
+					}
+					return true
+				})
+				if !hasReplace {
+					continue
+				}
+				if exprName(r.X) == param {
+					replaceInMapRange = true
+				} else {
+					replaceInOtherRange = true
+				}
+			}
+			switch {
+			case param != "" && replaceInMapRange && !replaceInOtherRange && sorts == 0 && len(ranges) == 1:
+				f.SubstSortsKeys = false
+			case param != "" && !replaceInMapRange && replaceInOtherRange && sorts == 1 && len(ranges) == 2:
+				f.SubstSortsKeys = true
+			default:
+				failf("%s: SubstituteVariables: neither `range submap {ReplaceAll}` nor `sort.Strings(keys); range keys {ReplaceAll}`", substFile)
 			}
 		}
-		switch {
-		case param != "" && replaceInMapRange && !replaceInOtherRange && sorts == 0 && len(ranges) == 1:
-			f.SubstSortsKeys = false
-		case param != "" && !replaceInMapRange && replaceInOtherRange && sorts == 1 && len(ranges) == 2:
-			f.SubstSortsKeys = true
-		default:
-			failf("%s: SubstituteVariables: neither `range submap {ReplaceAll}` nor `sort.Strings(keys); range keys {ReplaceAll}`", substFile)
+		if fs := sprintfFormats(funcDecl(substFile, "", "SubstituteEmptyStringForPrefixes")); len(fs) == 1 {
+			f.ReservedRegexFmt = fs[0]
+		} else {
+			failf("%s: SubstituteEmptyStringForPrefixes: expected one Sprintf", substFile)
 		}
-	}
-	if fs := sprintfFormats(funcDecl(substFile, "", "SubstituteEmptyStringForPrefixes")); len(fs) == 1 {
-		f.ReservedRegexFmt = fs[0]
-	} else {
-		failf("%s: SubstituteEmptyStringForPrefixes: expected one Sprintf", substFile)
-	}
+
+	})
 
 	// --- prefixes
-	if fd := funcDecl(providerFile, "defaultProvider", "GetAllPrefixes"); fd != nil {
-		ok := false
-		if len(fd.Body.List) == 1 {
-			if rs, ok1 := fd.Body.List[0].(*ast.ReturnStmt); ok1 && len(rs.Results) == 1 {
-				if cl, ok2 := rs.Results[0].(*ast.CompositeLit); ok2 {
-					ok = true
-					for _, el := range cl.Elts {
-						f.ContextPrefixes = append(f.ContextPrefixes, strLit(el, "GetAllPrefixes element"))
+	section("opt-prefixes", func() {
+		if fd := funcDecl(providerFile, "defaultProvider", "GetAllPrefixes"); fd != nil {
+			ok := false
+			if len(fd.Body.List) == 1 {
+				if rs, ok1 := fd.Body.List[0].(*ast.ReturnStmt); ok1 && len(rs.Results) == 1 {
+					if cl, ok2 := rs.Results[0].(*ast.CompositeLit); ok2 {
+						ok = true
+						for _, el := range cl.Elts {
+							f.ContextPrefixes = append(f.ContextPrefixes, strLit(el, "GetAllPrefixes element"))
+						}
 					}
 				}
 			}
+			if !ok {
+				failf("%s: GetAllPrefixes is not a single return of a string slice literal", providerFile)
+			}
 		}
-		if !ok {
-			failf("%s: GetAllPrefixes is not a single return of a string slice literal", providerFile)
-		}
-	}
+
+	})
 
 	// --- SubstitutePodSpec: order of appended maps, extra prefixes
-	if fd := funcDecl(podSubstFile, "", "SubstitutePodSpec"); fd != nil {
-		ast.Inspect(fd, func(n ast.Node) bool {
-			as, ok := n.(*ast.AssignStmt)
-			if !ok || len(as.Lhs) != 1 || len(as.Rhs) != 1 {
-				return true
-			}
-			c, ok := as.Rhs[0].(*ast.CallExpr)
-			if !ok || exprName(c.Fun) != "append" || len(c.Args) != 2 {
-				return true
-			}
-			switch exprName(as.Lhs[0]) {
-			case "subMaps":
-				arg := c.Args[1]
-				switch {
-				case selPath(arg) == "rj.Spec.Substitutions":
-					f.PodSubstSources = append(f.PodSubstSources, "substitutions")
-				default:
-					if cc, ok := arg.(*ast.CallExpr); ok {
-						switch lastSel(cc.Fun) {
-						case "MakeVariablesFromJob":
-							f.PodSubstSources = append(f.PodSubstSources, "job")
-						case "MakeVariablesFromTask":
-							f.PodSubstSources = append(f.PodSubstSources, "task")
-						case "MakeVariablesFromJobConfig":
-							f.PodSubstSources = append(f.PodSubstSources, "jobconfig")
-						default:
-							failf("%s: SubstitutePodSpec: unknown map source %s", podSubstFile, lastSel(cc.Fun))
-						}
-					} else {
-						failf("%s: SubstitutePodSpec: unknown map source", podSubstFile)
-					}
+	section("opt-podsubst", func() {
+		if fd := funcDecl(podSubstFile, "", "SubstitutePodSpec"); fd != nil {
+			ast.Inspect(fd, func(n ast.Node) bool {
+				as, ok := n.(*ast.AssignStmt)
+				if !ok || len(as.Lhs) != 1 || len(as.Rhs) != 1 {
+					return true
 				}
-			case "removePrefixes":
-				f.PodExtraPrefixes = append(f.PodExtraPrefixes, strLit(c.Args[1], "removePrefixes element"))
+				c, ok := as.Rhs[0].(*ast.CallExpr)
+				if !ok || exprName(c.Fun) != "append" || len(c.Args) != 2 {
+					return true
+				}
+				switch exprName(as.Lhs[0]) {
+				case "subMaps":
+					arg := c.Args[1]
+					switch {
+					case selPath(arg) == "rj.Spec.Substitutions":
+						f.PodSubstSources = append(f.PodSubstSources, "substitutions")
+					default:
+						if cc, ok := arg.(*ast.CallExpr); ok {
+							switch lastSel(cc.Fun) {
+							case "MakeVariablesFromJob":
+								f.PodSubstSources = append(f.PodSubstSources, "job")
+							case "MakeVariablesFromTask":
+								f.PodSubstSources = append(f.PodSubstSources, "task")
+							case "MakeVariablesFromJobConfig":
+								f.PodSubstSources = append(f.PodSubstSources, "jobconfig")
+							default:
+								failf("%s: SubstitutePodSpec: unknown map source %s", podSubstFile, lastSel(cc.Fun))
+							}
+						} else {
+							failf("%s: SubstitutePodSpec: unknown map source", podSubstFile)
+						}
+					}
+				case "removePrefixes":
+					f.PodExtraPrefixes = append(f.PodExtraPrefixes, strLit(c.Args[1], "removePrefixes element"))
+				}
+				return true
+			})
+			if len(f.PodSubstSources) == 0 {
+				failf("%s: SubstitutePodSpec: no `subMaps = append(subMaps, …)` found", podSubstFile)
 			}
-			return true
-		})
-		if len(f.PodSubstSources) == 0 {
-			failf("%s: SubstitutePodSpec: no `subMaps = append(subMaps, …)` found", podSubstFile)
 		}
-	}
+
+	})
 
 	// --- admission merges: MergeSubstitutions(<a>, <b>) in mutation.go, in source order
-	if file := parse(mutationFile); file != nil {
-		type posCall struct {
-			pos  token.Pos
-			args []string
-		}
-		var calls []posCall
-		ast.Inspect(file, func(n ast.Node) bool {
-			c, ok := n.(*ast.CallExpr)
-			if !ok || lastSel(c.Fun) != "MergeSubstitutions" {
-				return true
+	section("opt-admission-merges", func() {
+		if file := parse(mutationFile); file != nil {
+			type posCall struct {
+				pos  token.Pos
+				args []string
 			}
-			var kinds []string
-			for _, a := range c.Args {
-				switch {
-				case selPath(a) == "rj.Spec.Substitutions":
-					kinds = append(kinds, "explicit")
-				case selPath(a) == "evaluated":
-					kinds = append(kinds, "evaluated")
-				default:
-					if cc, ok := a.(*ast.CallExpr); ok && lastSel(cc.Fun) == "MakeVariablesFromJobConfig" {
-						kinds = append(kinds, "jobconfig")
-					} else {
-						failf("%s: MergeSubstitutions argument not recognised", mutationFile)
-						kinds = append(kinds, "?")
+			var calls []posCall
+			ast.Inspect(file, func(n ast.Node) bool {
+				c, ok := n.(*ast.CallExpr)
+				if !ok || lastSel(c.Fun) != "MergeSubstitutions" {
+					return true
+				}
+				var kinds []string
+				for _, a := range c.Args {
+					switch {
+					case selPath(a) == "rj.Spec.Substitutions":
+						kinds = append(kinds, "explicit")
+					case selPath(a) == "evaluated":
+						kinds = append(kinds, "evaluated")
+					default:
+						if cc, ok := a.(*ast.CallExpr); ok && lastSel(cc.Fun) == "MakeVariablesFromJobConfig" {
+							kinds = append(kinds, "jobconfig")
+						} else {
+							failf("%s: MergeSubstitutions argument not recognised", mutationFile)
+							kinds = append(kinds, "?")
+						}
 					}
 				}
+				calls = append(calls, posCall{c.Pos(), kinds})
+				return true
+			})
+			sort.Slice(calls, func(i, j int) bool { return calls[i].pos < calls[j].pos })
+			for _, c := range calls {
+				f.AdmissionMerges = append(f.AdmissionMerges, c.args)
 			}
-			calls = append(calls, posCall{c.Pos(), kinds})
-			return true
-		})
-		sort.Slice(calls, func(i, j int) bool { return calls[i].pos < calls[j].pos })
-		for _, c := range calls {
-			f.AdmissionMerges = append(f.AdmissionMerges, c.args)
+			if len(calls) == 0 {
+				failf("%s: no MergeSubstitutions call found", mutationFile)
+			}
 		}
-		if len(calls) == 0 {
-			failf("%s: no MergeSubstitutions call found", mutationFile)
-		}
-	}
+	})
+	return f
+}
+
+// optionsSectionFacts extracts and emits the C18 facts.
+func optionsSectionFacts(b *strings.Builder) optionsFacts {
+	f := extractOptionsFacts()
+	writeOptionsFacts(b, f)
 	return f
 }
 
@@ -393,34 +420,48 @@ func leanCharsList(xs []string) string {
 
 func writeOptionsFacts(b *strings.Builder, f optionsFacts) {
 	b.WriteString("\n/-! options engine (C18): strings are `List Char` literals -/\n")
-	b.WriteString("/-- `boolOptionFormatStrings`: (format, string for true, string for false) -/\n")
-	b.WriteString("def boolFormatStrings : List (List Char × List Char × List Char) := [")
-	for i, r := range f.BoolFormatStrings {
-		if i > 0 {
-			b.WriteString(", ")
+	emit(b, "opt-boolformats", func(b *strings.Builder) {
+		b.WriteString("/-- `boolOptionFormatStrings`: (format, string for true, string for false) -/\n")
+		b.WriteString("def boolFormatStrings : List (List Char × List Char × List Char) := [")
+		for i, r := range f.BoolFormatStrings {
+			if i > 0 {
+				b.WriteString(", ")
+			}
+			fmt.Fprintf(b, "(%s, %s, %s)", leanChars(r[0]), leanChars(r[1]), leanChars(r[2]))
 		}
-		fmt.Fprintf(b, "(%s, %s, %s)", leanChars(r[0]), leanChars(r[1]), leanChars(r[2]))
-	}
-	b.WriteString("]\n")
-	fmt.Fprintf(b, "def boolFormatsAll : List (List Char) := %s\n", leanCharsList(f.BoolFormatsAll))
-	fmt.Fprintf(b, "def boolFormatCustom : List Char := %s\n", leanChars(f.BoolFormatCustom))
-	fmt.Fprintf(b, "/-- format set by `GetDefaultingOptionBool` -/\ndef boolFormatDefault : List Char := %s\n", leanChars(f.BoolFormatDefault))
-	fmt.Fprintf(b, "def optionTypesAll : List (List Char) := %s\n", leanCharsList(f.OptionTypesAll))
-	fmt.Fprintf(b, "def optionNameRegexp : List Char := %s\n", leanChars(f.OptionNameRegexp))
-	fmt.Fprintf(b, "def optionVarFormat : List Char := %s\n", leanChars(f.OptionVarFormat))
-	fmt.Fprintf(b, "def substPatternFormat : List Char := %s\n", leanChars(f.SubstPatternFmt))
-	fmt.Fprintf(b, "/-- `options.SubstituteVariables` visits the keys in sorted order (false: ranges over the map) -/\ndef substSortsKeys : Bool := %v\n", f.SubstSortsKeys)
-	fmt.Fprintf(b, "def reservedRegexFormat : List Char := %s\n", leanChars(f.ReservedRegexFmt))
-	fmt.Fprintf(b, "/-- `defaultProvider.GetAllPrefixes` -/\ndef contextPrefixes : List (List Char) := %s\n", leanCharsList(f.ContextPrefixes))
-	fmt.Fprintf(b, "/-- appended to the prefixes in `SubstitutePodSpec` -/\ndef podExtraPrefixes : List (List Char) := %s\n", leanCharsList(f.PodExtraPrefixes))
-	fmt.Fprintf(b, "/-- order in which `SubstitutePodSpec` appends its maps (most important first) -/\ndef podSubstSources : List (List Char) := %s\n", leanCharsList(f.PodSubstSources))
-	b.WriteString("/-- argument kinds of the `MergeSubstitutions` calls of mutation.go in source order (lowest priority first) -/\n")
-	b.WriteString("def admissionMerges : List (List (List Char)) := [")
-	for i, m := range f.AdmissionMerges {
-		if i > 0 {
-			b.WriteString(", ")
+		b.WriteString("]\n")
+		fmt.Fprintf(b, "def boolFormatsAll : List (List Char) := %s\n", leanCharsList(f.BoolFormatsAll))
+		fmt.Fprintf(b, "def boolFormatCustom : List Char := %s\n", leanChars(f.BoolFormatCustom))
+		fmt.Fprintf(b, "/-- format set by `GetDefaultingOptionBool` -/\ndef boolFormatDefault : List Char := %s\n", leanChars(f.BoolFormatDefault))
+	})
+	emit(b, "opt-types", func(b *strings.Builder) {
+		fmt.Fprintf(b, "def optionTypesAll : List (List Char) := %s\n", leanCharsList(f.OptionTypesAll))
+	})
+	emit(b, "opt-names", func(b *strings.Builder) {
+		fmt.Fprintf(b, "def optionNameRegexp : List Char := %s\n", leanChars(f.OptionNameRegexp))
+		fmt.Fprintf(b, "def optionVarFormat : List Char := %s\n", leanChars(f.OptionVarFormat))
+	})
+	emit(b, "opt-subst", func(b *strings.Builder) {
+		fmt.Fprintf(b, "def substPatternFormat : List Char := %s\n", leanChars(f.SubstPatternFmt))
+		fmt.Fprintf(b, "/-- `options.SubstituteVariables` visits the keys in sorted order (false: ranges over the map) -/\ndef substSortsKeys : Bool := %v\n", f.SubstSortsKeys)
+		fmt.Fprintf(b, "def reservedRegexFormat : List Char := %s\n", leanChars(f.ReservedRegexFmt))
+	})
+	emit(b, "opt-prefixes", func(b *strings.Builder) {
+		fmt.Fprintf(b, "/-- `defaultProvider.GetAllPrefixes` -/\ndef contextPrefixes : List (List Char) := %s\n", leanCharsList(f.ContextPrefixes))
+	})
+	emit(b, "opt-podsubst", func(b *strings.Builder) {
+		fmt.Fprintf(b, "/-- appended to the prefixes in `SubstitutePodSpec` -/\ndef podExtraPrefixes : List (List Char) := %s\n", leanCharsList(f.PodExtraPrefixes))
+		fmt.Fprintf(b, "/-- order in which `SubstitutePodSpec` appends its maps (most important first) -/\ndef podSubstSources : List (List Char) := %s\n", leanCharsList(f.PodSubstSources))
+	})
+	emit(b, "opt-admission-merges", func(b *strings.Builder) {
+		b.WriteString("/-- argument kinds of the `MergeSubstitutions` calls of mutation.go in source order (lowest priority first) -/\n")
+		b.WriteString("def admissionMerges : List (List (List Char)) := [")
+		for i, m := range f.AdmissionMerges {
+			if i > 0 {
+				b.WriteString(", ")
+			}
+			b.WriteString(leanCharsList(m))
 		}
-		b.WriteString(leanCharsList(m))
-	}
-	b.WriteString("]\n")
+		b.WriteString("]\n")
+	})
 }
